@@ -146,7 +146,13 @@ func c05Sequences(c *ev.Ctx) {
 		c.Begin(fmt.Sprintf("C05 sequence %d", si))
 		for k := 0; k < steps && !st.dead; k++ {
 			conn, a := g.next()
+			if st.w.Judge(conn, wire.Msg{Type: a.t, F: a.vals}).DontCare {
+				continue
+			}
 			st.step(conn, a.t, a.vals...)
+			// touch every small fid: a File closed too early while a fid still
+			// refers to it shows up at once as a call after Close
+			st.probe(g.maxfid, false)
 		}
 		bound := len(st.w.Conns[0]) + len(st.w.Conns[1])
 		// end the connections in a seed-chosen order
